@@ -450,6 +450,27 @@ func monC17(c *drv.Ctx) {
 				c17StreamSkip(cs, t, te, cut, c17Errs[(cut+1)%len(c17Errs)], cut%2 == 1, sched)
 			}
 		}
+		// a string/binary longer than the reader's buffer, the source failing at a few positions inside it
+		// (the payload of such a value may be read along another path than short ones)
+		if cs.Idx%8 == 0 {
+			big := cval{K: kBinary, S: gen.Bytes(r, 4096+r.Intn(9000))}
+			if r.Intn(2) == 0 {
+				big.K = kString
+			}
+			bvals := []cval{{K: kI32, I: 7}, big, {K: kI64, I: 9}}
+			var bstream []byte
+			for _, v := range bvals {
+				bstream = append(bstream, v.ref(nil)...)
+			}
+			for _, cut := range []int{5, 9, 100, 4095, 4096, 4097, 4200, len(bstream) - 9, len(bstream) - 8, len(bstream) - 1} {
+				if cut > 0 && cut < len(bstream) {
+					for _, e := range []error{io.EOF, c17Errs[(cut+int(cs.Idx))%len(c17Errs)]} {
+						c17Stream(cs, bvals, bstream, cut, e, cut%2 == 0, sched)
+					}
+				}
+			}
+			cs.C.Obs("long values cut inside the payload", 1)
+		}
 		// pooled-reader reuse: a reader that failed on one source must report the new source's error next time
 		c17Stream(cs, vals, stream, len(stream)/2, c17Errs[3], false, sched)
 		c17Stream(cs, vals, stream, len(stream)/3, c17Errs[0], false, sched)
